@@ -16,7 +16,7 @@
 (* minified; expected value of both merges.                                *)
 (***************************************************************************)
 EXTENDS Gen_Values, JsonValue
-CONSTANTS MaxNodes2
+CONSTANTS MaxNodes2, SMode, LayE, LayV   \* SMode: "pairs" | "wide3" | "widearr"; whitespace layouts of the two texts
 VARIABLES tree2
 
 IsNEObj(v) == v.k = "obj" /\ Len(v.m) > 0
@@ -50,13 +50,33 @@ DupFree(v) ==
 Small == UNION {VN[k] : k \in 1..(IF MaxNodes2 < MaxNodes THEN MaxNodes2 ELSE MaxNodes)}
 DenT(t) == ParseText(RenderL(t, 0)).v
 
-InitS == /\ tree \in {t \in AllTrees : DupFree(DenT(t))}
-         /\ tree2 \in {t \in Small : DupFree(DenT(t))}
-         /\ layout = 0
+\* "wide3": an existing object with three declared keys whose values range over scalars and small objects, against
+\* text objects that provide any subset of them (in order or reversed) plus an undeclared key: nested update followed
+\* by more declared keys, at a size the exhaustive pair enumeration does not reach
+K3 == << <<34,97,34>>, <<34,98,34>>, <<34,99,34>> >>
+Vals3 == {Tok(N1), Obj(<<>>), Obj(<< <<K3[1], Tok(NULL)>> >>), Obj(<< <<K3[1], Tok(N1)>>, <<K3[2], Tok(SA)>> >>), Arr(<<Tok(N1)>>)}
+Vals3E == {Tok(N1), Obj(<<>>), Obj(<< <<K3[1], Tok(NULL)>> >>), Obj(<< <<K3[1], Tok(N1)>>, <<K3[2], Tok(SA)>> >>)}
+Vals3V == {Tok(N1), Obj(<< <<K3[1], Tok(NULL)>> >>), Obj(<< <<K3[2], Tok(SA)>>, <<K3[1], Tok(N1)>> >>)}
+Wide3E == {Obj(<< <<K3[1], x>>, <<K3[2], y>>, <<K3[3], z>> >>) : x \in Vals3E, y \in Vals3E, z \in Vals3E}
+Sub3 == {s \in SUBSET {1, 2, 3} : s # {}}
+Pick(s, f, rev) == LET seq == IF rev THEN <<3, 2, 1>> ELSE <<1, 2, 3>>
+                       sel == SelectSeq(seq, LAMBDA i : i \in s)
+                   IN [j \in 1..Len(sel) |-> <<K3[sel[j]], f[sel[j]]>>]
+Wide3V == {Obj(Pick(s, f, rev) \o (IF und THEN << <<<<34,122,34>>, Obj(<< <<K3[1], Tok(N1)>> >>)>> >> ELSE <<>>)) :
+             s \in Sub3, f \in [{1, 2, 3} -> Vals3V], rev \in BOOLEAN, und \in BOOLEAN}
+\* "widearr": top-level arrays with many elements (the lazy parser's node stack grows past its initial capacity)
+WArr(n) == Arr([i \in 1..n |-> Tok(IF i % 2 = 0 THEN N1 ELSE SA)])
+WideArrT == {WArr(n) : n \in {0, 1, 15, 16, 17, 33, 70}} \cup {Obj(<< <<K3[1], WArr(17)>> >>), Tok(N1), Obj(<< <<K3[1], Tok(N1)>> >>)}
+
+InitS == /\ layout = 0
+         /\ CASE SMode = "pairs" -> /\ tree \in {t \in AllTrees : DupFree(DenT(t))}
+                                    /\ tree2 \in {t \in Small : DupFree(DenT(t))}
+              [] SMode = "wide3" -> tree \in Wide3E /\ tree2 \in Wide3V
+              [] SMode = "widearr" -> tree \in WideArrT /\ tree2 \in WideArrT
 NextS == UNCHANGED <<tree, tree2, layout>>
 
 EmitS == LET E == DenT(tree) V == DenT(tree2) IN
-  CSVWrite("%1$s", <<ToJson([e |-> RenderL(tree, 0), v |-> RenderL(tree2, 0),
+  CSVWrite("%1$s", <<ToJson([e |-> RenderL(tree, LayE), v |-> RenderL(tree2, LayV),
                              schema |-> SchemaMerge(E, V), lazy |-> LazyMerge(E, V),
                              schema2 |-> SchemaMerge(SchemaMerge(E, V), V)])>>, IOEnv.OUT)
 \* merging the same text again changes nothing
